@@ -54,6 +54,9 @@ pub struct Trace {
   pub pending_timers_end: usize,
   pub quiescent: bool,
   pub status_flags: Vec<(bool, bool)>,
+  /// (is_completed, error_occur) of every complete_status handle, sampled after subscription and after every script step
+  /// (only when `sample_closed` is set)
+  pub status_after_step: Vec<Vec<(bool, bool)>>,
   /// every duration asked from the timer function (ticks), in order
   pub requested: Vec<u64>,
   /// counters at the moment the probe received its terminal
